@@ -1,6 +1,6 @@
 (* Dense-time facts used by the temporal proofs: order automation on Qc, midpoints, "the state in force at an
    instant", and the exactness of the model of _states_in_interval (C05, first core lemma). *)
-From Coq Require Import List ZArith NArith QArith Qcanon Bool Lia Lra Lqa.
+From Coq Require Import List ZArith NArith QArith Qcanon Bool Lia Lqa.
 Import ListNotations.
 Require Import UPV.Core.Expr UPV.Core.Eval UPV.Core.Interp UPV.Planning.Problem UPV.Planning.Sem.
 Require Import UPV.Planning.Temporal UPV.Planning.TTValidate.
